@@ -45,6 +45,7 @@ func checkC15(c *Ctx) {
 	c.c15AddCache()
 	c.c15DefaultDeleter()
 	c.c15WhoRemovesLabels()
+	c.c15RecoveredDelete()
 	// the count sums the deleters' nil results: it equals the entries removed only if the in-module Delete reports nil exactly once
 	// per removed entry — presence check and removal in one critical section (two concurrent invalidations sharing a key must not
 	// both count it), nil only with evidence of presence
@@ -309,6 +310,82 @@ func (c *Ctx) c15RangeShrink() {
 
 // c15WhoRemovesLabels: labels leave the index only through invalidation (cutKeys) — nothing else deletes from or replaces the
 // per-name maps or their lists (a flush of one cache must not forget labels that other caches registered under the same name rely on).
+// c15RecoveredDelete: a function that calls a Deleter and recovers from its panic must report the panic: the recovering closure
+// assigns a named error result of the function (or panics again). With an unnamed result the assignment is lost, the wrapper returns
+// nil, and a deleter that panicked counts as a deleter that deleted — the key is dropped from the index while it is still cached.
+func (c *Ctx) c15RecoveredDelete() {
+	r := c.R
+	info := c.Pkg.TypesInfo
+	n := 0
+	c.eachFuncDecl(func(fd *ast.FuncDecl, fn *types.Func) {
+		callsDelete := false
+		ast.Inspect(fd.Body, func(x ast.Node) bool {
+			if call, ok := x.(*ast.CallExpr); ok {
+				if sel, ok := ast.Unparen(call.Fun).(*ast.SelectorExpr); ok && sel.Sel.Name == "Delete" {
+					if t := info.TypeOf(sel.X); t != nil && namedTypeName(t) == "Deleter" {
+						callsDelete = true
+					}
+				}
+			}
+			return true
+		})
+		if !callsDelete {
+			return
+		}
+		named := map[types.Object]bool{}
+		if fd.Type.Results != nil {
+			for _, f := range fd.Type.Results.List {
+				for _, nm := range f.Names {
+					if obj := info.Defs[nm]; obj != nil && types.TypeString(obj.Type(), nil) == "error" {
+						named[obj] = true
+					}
+				}
+			}
+		}
+		ast.Inspect(fd.Body, func(x ast.Node) bool {
+			ds, ok := x.(*ast.DeferStmt)
+			if !ok {
+				return true
+			}
+			lit, ok := ast.Unparen(ds.Call.Fun).(*ast.FuncLit)
+			if !ok {
+				return true
+			}
+			recovers, repanics, reports := false, false, false
+			ast.Inspect(lit.Body, func(y ast.Node) bool {
+				switch y := y.(type) {
+				case *ast.CallExpr:
+					if id, ok := ast.Unparen(y.Fun).(*ast.Ident); ok {
+						if b, isB := info.Uses[id].(*types.Builtin); isB {
+							switch b.Name() {
+							case "recover":
+								recovers = true
+							case "panic":
+								repanics = true
+							}
+						}
+					}
+				case *ast.AssignStmt:
+					for _, l := range y.Lhs {
+						if id, ok := ast.Unparen(l).(*ast.Ident); ok && named[info.Uses[id]] {
+							reports = true
+						}
+					}
+				}
+				return true
+			})
+			if recovers {
+				n++
+				if !repanics && !reports {
+					r.Bad("R15.5", c.fnNameOf(fd), "recovered-panic-reported-as-success", c.Pos(ds.Pos()), "a function that calls a Deleter recovers from its panic without assigning a named error result (or panicking again): the call returns nil and the key counts as deleted", nil)
+				}
+			}
+			return true
+		})
+	})
+	r.Count("recovering_delete_wrappers", n)
+}
+
 func (c *Ctx) c15WhoRemovesLabels() {
 	r := c.R
 	info := c.Pkg.TypesInfo
@@ -606,6 +683,9 @@ func (c *Ctx) c15Protocol() {
 						if !(errExit && p.Ret[1] == ev.Results[0]) {
 							r.Bad("R15.5", name, "error-swallowed", c.Pos(ev.Pos), "a deleter error other than ErrNotFound is not returned to the caller", shortTrace(p))
 						}
+					}
+					if isNF == triTrue && errExit && len(p.Ret) == 2 && p.Ret[1] == ev.Results[0] {
+						r.Bad("R15.5", name, "notfound-returned", c.Pos(ev.Pos), "a deleter's ErrNotFound (the key is simply not in that cache) is returned as the call's failure: invalidation stops at that key, and so does every retry", shortTrace(p))
 					}
 					if isNF == triUnknown {
 						r.Bad("R15.5", name, "error-unclassified", c.Pos(ev.Pos), "a deleter error is neither compared with ErrNotFound nor returned", shortTrace(p))
